@@ -174,10 +174,10 @@ func WithWordInterceptor(rule string) Option { return WithInterceptor(syntax.Mat
 // [跨域请求]: https://developer.mozilla.org/zh-CN/docs/Web/HTTP/cors
 func WithCORS(origin []string, allowHeaders []string, exposedHeaders []string, maxAge int, allowCredentials bool) Option {
 	return func(o *options) {
-		o.cors = &cors{
-			Origins:          origin,
-			AllowHeaders:     allowHeaders,
-			ExposedHeaders:   exposedHeaders,
+		o.cors = &cors{ // 保存副本，之后调用方对切片的修改不会影响到路由。
+			Origins:          slices.Clone(origin),
+			AllowHeaders:     slices.Clone(allowHeaders),
+			ExposedHeaders:   slices.Clone(exposedHeaders),
 			MaxAge:           maxAge,
 			AllowCredentials: allowCredentials,
 		}
